@@ -4,6 +4,7 @@ pub mod co;
 pub mod join;
 pub mod once;
 pub mod rt;
+pub mod sleepers;
 pub mod local;
 pub mod nio;
 pub mod pool;
@@ -37,5 +38,6 @@ pub static ALL: &[Comp] = &[
     Comp { name: "join", gen: join::gen, exec: join::exec, isolate_ms: 15000 },
     Comp { name: "once", gen: once::gen, exec: once::exec, isolate_ms: 15000 },
     Comp { name: "rt", gen: rt::gen, exec: rt::exec, isolate_ms: 15000 },
+    Comp { name: "sleepers", gen: sleepers::gen, exec: sleepers::exec, isolate_ms: 15000 },
     Comp { name: "pq", gen: queue::gen_pq, exec: queue::exec_pq, isolate_ms: 500 },
 ];
